@@ -124,6 +124,9 @@ pub fn dict0() -> GDict {
         d.add(GDef { code: 400 + 2 * k as u32, vendor: None, name: x, ty: T_U32, m: true });
         d.add(GDef { code: 401 + 2 * k as u32, vendor: if k % 2 == 0 { Some(99) } else { None }, name: y, ty: T_UTF8, m: false });
     }
+    // a name that reads like a qualified one ("<vendor>:<name>", "<name>@<vendor>") next to the definition it seems to point at
+    d.add(GDef { code: 420, vendor: None, name: "99:V3".into(), ty: T_U32, m: true });
+    d.add(GDef { code: 421, vendor: None, name: "V4@99".into(), ty: T_UTF8, m: false });
     d.add(GDef { code: 4294967295, vendor: None, name: "MaxCode".into(), ty: T_OCT, m: false });
     d.add(GDef { code: 0, vendor: Some(0), name: "Zero".into(), ty: T_U64, m: true });
     d.add(GDef { code: 200, vendor: None, name: "Odd".into(), ty: T_UNKNOWN, m: false });
@@ -578,7 +581,8 @@ pub fn leaf(r: &mut Rng, ty: usize, len: Option<usize>) -> GV {
         },
         T_IPV4 => GV::Ipv4(edge_u32(r).to_be_bytes()),
         T_IPV6 => GV::Ipv6(if r.chance(1, 2) { edge_v6(r) } else { ((edge_u64(r) as u128) << 64 | edge_u64(r) as u128).to_be_bytes() }),
-        T_IDENT => GV::Ident(text(r, n)),
+        // (now and then with what a C peer leaves behind: a terminating NUL, a trailing blank or line end, counted into the length)
+        T_IDENT => GV::Ident(if len.is_none() && n >= 2 && r.chance(1, 6) { let mut t = text(r, n - 1); t.push(*r.pick(&['\0', ' ', '\n', '.'])); t } else { text(r, n) }),
         T_URI => GV::Uri(if len.is_none() && r.chance(1, 2) { uri_text(r).into_bytes() } else { r.bytes(n) }),
         T_ENUM => GV::Enum(edge_u32(r) as i32),
         T_F32 => GV::F32(edge_f32(r)),
@@ -2566,6 +2570,15 @@ fn gen_c08(o: &mut Out, r: &mut Rng, d: &GDict, tier: &str, cuts: bool) {
                 o.line(&format!("serve {} {} {}", all_ok.join(","), random_events(r, &stream), random_wscript(r, total_ans)));
             }
             // one malformed frame at every position (several kinds of malformation)
+            // a preamble of some other protocol in front of well-formed requests (a load balancer's PROXY line, an HTTP request, a
+            // TLS hello, SSH): read as RFC 6733 it is a malformed first frame, and nothing behind it is served
+            for (pi, pre) in [&b"PROXY TCP4 192.0.2.1 192.0.2.2 40000 3868\r\n"[..], b"PROXY UNKNOWN\r\n", b"GET / HTTP/1.1\r\nHost: x\r\n\r\n", b"\x16\x03\x01\x00\x05hello", b"SSH-2.0-x\r\n", b"\r\n\r\n\x00\r\nQUIT\n\x21\x11\x00\x0c\x7f\x00\x00\x01\x7f\x00\x00\x01\x9c\x40\x0f\x1c"].iter().enumerate() {
+                let mut s2: Vec<u8> = pre.to_vec();
+                s2.extend(rf.concat());
+                o.case(&format!("serve bad=0 kind=pre{} reqlens={} anslens={}", pi, rl.join(","), al.join(",")));
+                setup(o, r);
+                o.line(&format!("serve {} {} -", all_ok.join(","), if pi % 2 == 0 { format!("d:{}", hex(&s2)) } else { random_events(r, &s2) }));
+            }
             for k in 0..nreq {
                 for kind in 0..8 {
                     let mut bad = rf.clone();
@@ -3394,7 +3407,18 @@ fn gen_c12(o: &mut Out, r: &mut Rng, d: &GDict, tier: &str, max_corpora: usize) 
                     let mut rd = vec![format!("w:{}", total)];
                     let mut all: Vec<String> = vec![];
                     let flood: Vec<(Vec<u8>, String)> = (0..*k).map(|j| {
-                        let h = 880000 + (ci * 1000 + j) as u32;
+                        // (ids of their own, or ids one "tolerant" transformation away from an outstanding one: its octets in the
+                        // other order, halves swapped, one bit off, the complement - an unmatched message matches nobody)
+                        let o_id = ids[j % ids.len()];
+                        let cand = match j % 6 {
+                            1 => o_id.swap_bytes(),
+                            2 => o_id.rotate_left(16),
+                            3 => o_id ^ 0x8000_0000,
+                            4 => !o_id,
+                            5 => o_id ^ 1,
+                            _ => 880000 + (ci * 1000 + j) as u32,
+                        };
+                        let h = if ids.contains(&cand) { 880000 + (ci * 1000 + j) as u32 } else { cand };
                         uid += 1;
                         let m = GM { version: 1, flags: 0x80, cmd: [280u32, 258, 274][j % 3], app: 0, hbh: h, e2e: uid, avps: vec![] };
                         (m.encode(&mut None), format!("{}:{}", h, uid))
@@ -3552,7 +3576,9 @@ fn gen_c12(o: &mut Out, r: &mut Rng, d: &GDict, tier: &str, max_corpora: usize) 
 
 /* ---------- dictionary families ---------- */
 
-const TYPE_SPELLINGS: [&str; 24] = [
+const TYPE_SPELLINGS: [&str; 36] = [
+    // (near misses of the documented names: same head, length and last octet; the API's own spellings; a blank too many)
+    "AddressIPv6", "Unsigned24", "DiameterAPI", "OctetStrong", "Integer23", "UTF8Strong", "DiameterIdentify", "Enumeratad", "Unsigned32 ", " Grouped", "Float16", "Group",
     "Address", "IPv4", "IPv6", "DiameterIdentity", "DiameterURI", "Enumerated", "Float32", "Float64", "Grouped", "Integer32", "Integer64",
     "OctetString", "Time", "Unsigned32", "Unsigned64", "UTF8String", "Foo", "utf8string", "UTF8String2", "", "IPFilterRule", "Unsigned16",
     "Identity", "AddressIPv4",
